@@ -5,3 +5,4 @@ HERE="$(cd "$(dirname "$0")" && pwd)"
 export CARGO_NET_OFFLINE=true RUSTFLAGS="--cfg tarpc_verif" CARGO_TARGET_DIR="$HERE/target"
 cargo build --release --offline --manifest-path "$HERE/mc/Cargo.toml"
 CARGO_TARGET_DIR="$HERE/target/loom" RUSTFLAGS="" cargo build --release --offline --manifest-path "$HERE/mc-loom/Cargo.toml"
+VERIF_DIR="$HERE" python3 "$HERE/macro_grid/run.py" --tier quick --build-only
